@@ -151,6 +151,15 @@ CHECKS = {
             'sampled (30 000 cases each); 45 cast inputs x 5 casts x typed/untyped columns must give the value or NULL.',
             'Trusted: Python datetime, re, decimal, textwrap, dateutil.relativedelta as the definitions.',
             'DESIGN.md section 4, C18'),
+    'C19': ('model-based operation histories on one shell (settings-dictionary model; statement output recomputed through the API and the renderers with explicit arguments); enumerated command-line option subsets through click CliRunner',
+            'Sequences of .set (all accepted spellings, invalid values, unknown and attribute names, wrong arity), .set NAME, '
+            'statements in any letter case, .run NAME (default CLOSE date), .tables/.describe/.explain, unknown and legacy '
+            'commands are run on one BQLShell in batch mode; after every step `.set` must print the model, errors must leave '
+            'it unchanged, dot-commands must not reach the parser, and each statement must print exactly what rendering the '
+            'API result under the current settings prints. All 24 subsets of -f/-m/-o/-q are run through shell.main on a '
+            'ledger with load errors.',
+            'Trusted: query_render / numberify as called directly (C16, C17 check them); batch mode only.',
+            'DESIGN.md section 4, C19'),
 }
 
 ALL = [f'C{i:02d}' for i in range(1, 21)]
